@@ -1,0 +1,13 @@
+//go:build verif
+
+package datastore
+
+// VerifYield, when set by the simulation harness, is called at scheduling points
+// (before the datastore lock is tried). Never called with a lock held.
+var VerifYield func(point string)
+
+func verifYield(point string) {
+	if f := VerifYield; f != nil {
+		f(point)
+	}
+}
